@@ -59,6 +59,13 @@ def check(ctx, F):
     from . import C01
     C01.check_ortho_all(C03._Alias(ctx, {"C01.ortho-all": "C02.cs-dispatch"}), F)
     check_leftmost(ctx, F, "C02.leftmost")
+    # shared rule instances: a nested region reports its own prong to the region that resolves it (C12.compose); the bit views the
+    # orthogonal request forwarding tests for emptiness cover exactly their range (C18.views)
+    from . import C12, C18
+    C12.check_compose(C03._Alias(ctx, {"C12.compose": "C02.kind-table"}), F)
+    if any(bb["name"] == "operator bool" and bb.get("cls") in ("Bits", "CBits") for bb in F.bodies.values()):
+        C18._FN["F"] = F
+        C18.check_views(C03._Alias(ctx, {"C18.views": "C02.dispatch"}), F)
     check_resumable_memory(ctx, F)
     check_reset(ctx, F)
     check_idle(ctx, F)
